@@ -1200,6 +1200,125 @@ func GenCoerce(repo string) (string, error) {
 		}
 		fmt.Fprintf(&b, "/-- `%s.Coerce`: element type → the helper applied to the input. -/\ndef %s : List Route := [\n  %s\n]\n\n", spec.recv, spec.def, strings.Join(rs, ",\n  "))
 	}
+	// --- internal/engine/parser.go: parsePrimitiveValue — the order of its tests and the coercion branch -------
+	// (round 4c, audit M5: "parsePrimitiveValue is not translated; Bool/String/BigInt schema routing tied by the run only")
+	pf, err := parse(repo, "internal/engine/parser.go")
+	if err != nil {
+		return "", err
+	}
+	ppv, err := pf.fn("parsePrimitiveValue")
+	if err != nil {
+		return "", err
+	}
+	var steps []string
+	coerceStep := ""
+	for _, st := range ppv.Body.List {
+		ifs, ok := st.(*ast.IfStmt)
+		if !ok {
+			steps = append(steps, "("+leanStr("")+", "+leanStr(pf.text(st))+")")
+			continue
+		}
+		test := pf.text(ifs.Cond)
+		if ifs.Init != nil {
+			test = pf.text(ifs.Init) + "; " + test
+		}
+		if ifs.Else != nil {
+			test += " «else»"
+		}
+		var body []string
+		for _, x := range ifs.Body.List {
+			body = append(body, pf.text(x))
+		}
+		steps = append(steps, "("+leanStr(test)+", "+leanStr(strings.Join(body, "; "))+")")
+		// the coercion branch: `if internals.Coerce { if v, err := H(ARGS); err == nil { return CALL } }`
+		if strings.Contains(test, "Coerce") {
+			if len(ifs.Body.List) != 1 {
+				return "", fmt.Errorf("parsePrimitiveValue: the Coerce branch holds %d statements", len(ifs.Body.List))
+			}
+			inner, ok := ifs.Body.List[0].(*ast.IfStmt)
+			if !ok || inner.Init == nil || inner.Else != nil || len(inner.Body.List) != 1 {
+				return "", fmt.Errorf("parsePrimitiveValue: unexpected Coerce branch %s", pf.text(ifs.Body))
+			}
+			as, ok := inner.Init.(*ast.AssignStmt)
+			if !ok || len(as.Lhs) != 2 || len(as.Rhs) != 1 {
+				return "", fmt.Errorf("parsePrimitiveValue: unexpected coercion call %s", pf.text(inner.Init))
+			}
+			call, ok := as.Rhs[0].(*ast.CallExpr)
+			if !ok {
+				return "", fmt.Errorf("parsePrimitiveValue: coercion is not a call: %s", pf.text(as.Rhs[0]))
+			}
+			cc := &ctx{f: pf, consts: map[string]constant.Value{}, alias: map[string]string{}}
+			ret, ok := inner.Body.List[0].(*ast.ReturnStmt)
+			if !ok || len(ret.Results) != 1 {
+				return "", fmt.Errorf("parsePrimitiveValue: the Coerce branch does not return one call: %s", pf.text(inner.Body))
+			}
+			rcall, ok := ret.Results[0].(*ast.CallExpr)
+			if !ok {
+				return "", fmt.Errorf("parsePrimitiveValue: the Coerce branch returns %s", pf.text(ret.Results[0]))
+			}
+			var rargs []string
+			for _, a := range rcall.Args {
+				rargs = append(rargs, leanStr(pf.text(a)))
+			}
+			coerceStep = "{ guard := " + leanStr(pf.text(ifs.Cond)) + ", helper := " + leanStr(pf.text(call.Fun)) +
+				", args := [" + strings.Join(argList(pf, cc, ppv, call), ", ") + "], bound := " + leanStr(pf.text(as.Lhs[0])) +
+				", success := " + leanStr(pf.text(inner.Cond)) + ", validate := " + leanStr(pf.text(rcall.Fun)) + ", validateArgs := [" + strings.Join(rargs, ", ") + "] }"
+		}
+	}
+	if coerceStep == "" {
+		return "", fmt.Errorf("parsePrimitiveValue: no `if internals.Coerce` branch found")
+	}
+	fmt.Fprintf(&b, "/-- `engine.parsePrimitiveValue`: its top-level statements in order — (test, what runs under it); a statement that is no `if` has the empty test. -/\ndef parsePrimitiveValue_steps : List (String × String) := [\n  %s\n]\n\n", strings.Join(steps, ",\n  "))
+	fmt.Fprintf(&b, "/-- The coercion branch of `parsePrimitiveValue`: `if GUARD { if BOUND, err := HELPER(ARGS); SUCCESS { return VALIDATE(VALIDATEARGS) } }`;\n    ARGS as expressions over parsePrimitiveValue's parameters (`.param 0` = `input`, unchanged). -/\ndef parsePrimitiveValue_coerce : CoerceStep :=\n  %s\n\n", coerceStep)
+
+	// --- the Parse method of each primitive schema: which `engine.ParsePrimitive` instance (base type T) it calls ----
+	var pps []string
+	for _, spec := range []struct{ file, recv string }{{"types/integer.go", "ZodIntegerTyped"}, {"types/float.go", "ZodFloatTyped"}, {"types/bool.go", "ZodBool"}, {"types/string.go", "ZodString"}, {"types/bigint.go", "ZodBigInt"}} {
+		tf, err := parse(repo, spec.file)
+		if err != nil {
+			return "", err
+		}
+		found := false
+		for _, m := range tf.methods(spec.recv) {
+			if m.Name.Name != "Parse" {
+				continue
+			}
+			var calls []*ast.CallExpr
+			ast.Inspect(m.Body, func(n ast.Node) bool {
+				if call, ok := n.(*ast.CallExpr); ok && strings.HasPrefix(tf.text(call.Fun), "engine.ParsePrimitive") {
+					calls = append(calls, call)
+				}
+				return true
+			})
+			if len(calls) != 1 || len(calls[0].Args) < 5 {
+				return "", fmt.Errorf("%s: %s.Parse makes %d engine.ParsePrimitive calls", spec.file, spec.recv, len(calls))
+			}
+			call := calls[0]
+			fn := tf.text(call.Fun)
+			if i := strings.IndexByte(fn, '['); i >= 0 {
+				fn = fn[:i]
+			}
+			// the base type T is the type argument of the validator `engine.ApplyChecks[T]`
+			val := tf.text(call.Args[3])
+			base := ""
+			if strings.HasPrefix(val, "engine.ApplyChecks[") && strings.HasSuffix(val, "]") {
+				base = val[len("engine.ApplyChecks[") : len(val)-1]
+			}
+			// what the method does before that call (a reassignment of `input` would show here)
+			pre := ""
+			if n := len(m.Body.List); n > 1 {
+				pre = tf.text(m.Body.List[:n-1])
+			}
+			pps = append(pps, "{ recv := "+leanStr(spec.recv)+", entry := "+leanStr(fn)+", input := "+argOf(tf, &ctx{f: tf, consts: map[string]constant.Value{}, alias: map[string]string{}}, m, call.Args[0])+
+				", validator := "+leanStr(val)+", base := "+leanStr(base)+", pre := "+leanStr(pre)+" }")
+			found = true
+		}
+		if !found {
+			return "", fmt.Errorf("%s: no %s.Parse method", spec.file, spec.recv)
+		}
+	}
+	fmt.Fprintf(&b, "/-- The `Parse` method of each primitive schema type: the engine entry point, the input it hands on, the validator and the base type `T` (= the `T` of `coerce.To[T]` in `parsePrimitiveValue`). -/\ndef primitiveParse : List ParseRoute := [\n  %s\n]\n\n", strings.Join(pps, ",\n  "))
+
 	b.WriteString("end Gozod.Gen.CoerceDispatch\n")
 	return b.String(), nil
 }
